@@ -208,6 +208,11 @@ func (w *Wallet) txToOutputs(outputs []*wire.TxOut,
 						"not eligible for "+
 						"spending: %v", outpoint)
 				}
+
+				// An outpoint can fund a transaction only
+				// once.
+				delete(eligibleByOutpoint, outpoint)
+
 				eligibleSelectedUtxo = append(
 					eligibleSelectedUtxo, e,
 				)
